@@ -116,7 +116,7 @@ def gen_component(rnd, depth=0):
         return v.replace("\\", "\\\\").replace(";", "\\;").replace(",", "\\,").replace("\r\n", "\\n").replace("\n", "\\n")
 
     def dquote(v):
-        return '"' + v + '"' if any(c in v for c in ",;:") else v
+        return '"' + v + '"' if any(c in v for c in ",;:") or rnd.random() < 0.3 else v          # (quoting is always allowed)
     name = rnd.choice(["VEVENT", "VTODO", "VJOURNAL", "X-BOX", "VALARM", "X-" + rnd.choice(["A", "B"])])
     lines = [rnd.choice(["BEGIN", "begin", "Begin"]) + ":" + (name if rnd.random() < 0.7 else name.lower())]
     exp_props = []
@@ -125,6 +125,10 @@ def gen_component(rnd, depth=0):
         params = []
         if rnd.random() < 0.4:
             pv = gen_text(rnd, rnd.randint(1, 6)).replace('"', "'").replace("\\", "/").replace("\t", " ")
+            if rnd.random() < 0.3:
+                # white space at the edges of a parameter value is part of the value (quoted or not)
+                edge = rnd.choice([" ", "\t", "\u00a0", "\u3000", "  "])
+                pv = (edge + pv) if rnd.random() < 0.5 else (pv + edge)
             params.append(("X-P" + rnd.choice("12"), pv))
         if kind in ("text", "xtext") and rnd.random() < 0.3:
             # RFC 5545 3.3.11 escapes written directly in the text (including the upper-case newline escape)
@@ -209,12 +213,12 @@ def binary_payloads(data):
         if cut is None:
             continue
         head, val = line[:cut], line[cut + 1:]
-        if head.upper().startswith("ATTACH") and "VALUE=BINARY" in head.upper():
+        if head.upper().startswith("ATTACH") and "VALUE=BINARY" in head.upper().replace('"', ""):
             try:
                 out.append(base64.b64decode(val, validate=True))
             except Exception:  # noqa
                 out.append(("not base64", val))
-    return out
+    return sorted(out, key=repr)          # as a multiset: the serialisation may order properties differently
 
 
 def gen_calendar(rnd):
